@@ -628,7 +628,7 @@ SCOPE = {
 
 # scenarios of a bounded stand-in shared by several properties: which failing inputs belong to which property
 WITNESS_SCOPE = {
-    "cconn": {"C09": r"^(upload|pipebody|recvbody) ", "C08": r"^bodyfile ", "C05": r"^(pipeline|pipebody) "},
+    "cconn": {"C09": r"^(upload|pipebody|recvbody) ", "C08": r"^(bodyfile|stall) ", "C05": r"^(pipeline|pipebody) "},
     # the API-level model-based stand-in: every disagreement belongs to C05; the ones in a body read, in the body read state after a request was read, or in reading the request that follows a body (the body handed out,
     # what is left for the next request) also to C03
     "c05": {"C03": r"\((BV|BF\(\d+\))\)|ops=\S*B[VF]\S* expected=call \d+ \(RR\)|expected=after call \d+ \(RR\) states"},
